@@ -16,6 +16,9 @@ def hashy_program(r):
     """Mamba text exercising hash-ordered internals: interleaved class members, several parents, unions of
     2-4 types (also same-named generics), several exceptions, multi-member raise lists."""
     L = []
+    # a user import of a name that a built-in (generic) class has: an import registers a stand-in class of that name
+    if r.random() < 0.3:
+        L.append(r.choice(['from typing import List', 'from typing import Set, List', 'from typing import Tuple', 'from collections import Collection', 'from typing import Dict as D, List']))
     nexc = r.randrange(2, 5)
     for i in range(nexc):
         parent = 'Exception' if i == 0 or r.random() < 0.5 else f'Ex{r.randrange(i)}'
